@@ -131,7 +131,9 @@ Definition violated (l : option (list expr)) : list Z :=
   end.
 
 (** a dumped case: mnemonic, 16-bit operand size?, the lifted list *)
-Record lcase := mklcase { lc_mnemo : string; lc_o16 : bool; lc_lift : option (list expr) }.
+(* lc_next: the address of the next instruction handed to the lifter (0x1000 + length of the encoding) *)
+(* lc_args: the operand expressions the lifter was called with (instruction.arg_expr) *)
+Record lcase := mklcase { lc_mnemo : string; lc_o16 : bool; lc_next : Z; lc_args : list expr; lc_lift : option (list expr) }.
 Definition known_t := list (string * bool * Z).
 Definition in_known (k : known_t) (mn : string) (o16 : bool) (cl : Z) : bool :=
   existsb (fun '(m, o, c) => (m =? mn)%string && Bool.eqb o o16 && (c =? cl)) k.
